@@ -598,6 +598,7 @@ void executeRun(const Desc& d, Obs& o) {
     MemoryLeakWarningPlugin::turnOnDefaultNotThreadSafeNewDeleteOverloads();
 
     RS = RunState(); RS.d = &d; RS.o = &o; RS.currentTest = -1;
+    { sigset_t none; sigemptyset(&none); sigprocmask(SIG_SETMASK, &none, 0); }      // every run of a worker starts with no signal blocked, whatever the run before left
     RS.outsideShell = UtestShell::getCurrent();
     for (int i = 0; i < N_TARGETS; i++) g_tgt[i] = &g_init[i];
     memset(RS.slots, 0, sizeof RS.slots);
@@ -719,7 +720,12 @@ void executeRun(const Desc& d, Obs& o) {
             simRand().calls = 0; simRand().srands = 0;
         }
         SimRunner runner((int)avp.size(), avp.data(), &reg);
+#if CPPUTEST_HAVE_EXCEPTIONS
+        try { o.ret = runner.runAllTestsMain(); }
+        catch (...) { o.ret = -12345; o.wrapperProblems += "an exception left the runner although its command line says that exceptions are not passed on (what an earlier invocation had set survived); "; }
+#else
         o.ret = runner.runAllTestsMain();
+#endif
     }
     if (o.ret == 0) o.finalReport = normalizeAddrs(leak->FinalReport(0));
     reg.removePluginByName(DEF_PLUGIN_MEM_LEAK);
